@@ -317,6 +317,12 @@ def run_case(case):
                          {"A": a.tolist(), "lb": lo.tolist(),
                           "ub": [math.inf] * m}]
             kind = "two-sided linear vs (upper, lower)"
+            if rng.random() < 0.3:
+                # the two one-sided parts in the other order: the internal
+                # rows are then (-A, A) instead of (A, -A)
+                s2["lin"].reverse()
+                kind = "regrouped linear rows: internal row order changes"
+                tags.append("split_lower_first")
         else:
             r = rng.random()
             if r < 0.25:
